@@ -2,6 +2,7 @@
   C11 — torn, foreign or wrong-version cache files are rejected, never half-read.
 -/
 import PG.Lemmas.WriterInv
+import PG.Lemmas.Unaligned
 namespace PG
 
 /-- Every strict prefix of every written file (what a crash during writing can leave behind)
@@ -12,6 +13,16 @@ theorem C11_prefix (recs : List Record) (hs : (Tables.build recs).Small) (k : Na
     (hk : k < (Cache.write recs).length) :
     ∃ e, Cache.parse ((Cache.write recs).take k) = .error e :=
   parse_prefix_rejected (Tables.build recs) (build_fits recs hs) k hk
+
+/-- The same for a file that does not start at a multiple of 8 (it sits inside another buffer):
+    `Cache.parseAt a` is the reader at an address ≡ `a` (mod 8), `Cache.parse = Cache.parseAt 0`.
+    Neither the whole written file nor any prefix of it is accepted there, so nothing is ever read
+    with its sections shifted. -/
+theorem C11_unaligned (recs : List Record) (hs : (Tables.build recs).Small) (a : Nat) (ha : a % 8 ≠ 0)
+    (k : Nat) : ∃ e, Cache.parseAt a ((Cache.write recs).take k) = .error e :=
+  parseAt_written_rejected (Tables.build recs) (build_fits recs hs) a ha k
+
+theorem C11_parseAt_zero (buf : Bytes) : Cache.parseAt 0 buf = Cache.parse buf := parseAt_zero buf
 
 /-- The decision sequence of the parser, in check order, for every buffer: shorter than the
     header ⇒ `InvalidHeader`; byte-swapped magic ⇒ `WrongEndianness`; other magic ⇒
@@ -43,6 +54,12 @@ theorem C11_magic : le32 magicPRGC = [80, 82, 71, 67] ∧ le32 magicFlipped = [6
 /-- non-vacuity: a concrete written file, one of its prefixes and the error it gets -/
 example : (match Cache.parse ((Cache.write [Record.cls [111] [97]]).take 30) with
     | .error .invalidClasses => true
+    | _ => false) = true := by
+  decide
+
+/-- non-vacuity: the same file, whole, at an address ≡ 4 (mod 8) -/
+example : (match Cache.parseAt 4 (Cache.write [Record.cls [111] [97]]) with
+    | .error (.unexpectedStringBytes _ _) => true
     | _ => false) = true := by
   decide
 
